@@ -70,7 +70,7 @@ def make_client():
     return ae
 
 
-def peer(events):
+def peer(events, results=(0,)):
     """Scripted peer.  events: what the peer does when it sees the k-th DIMSE request:
        'ok' answer normally | ('abort', s, r) | ('release',) | 'half-find' (2 pending responses, then the event
        that follows in the list)."""
@@ -84,7 +84,8 @@ def peer(events):
                 if isinstance(first, tuple) and first[0] == 'reject':
                     return [fd.incoming_pdu({'t': 3, 'r1': 0, 'r2': 0, 'result': first[1], 'source': first[2], 'reason': first[3]})]
                 pcs = [it for it in rec['spec']['items'] if it['t'] == 0x20]
-                return [fd.incoming_pdu(fd.ac_spec([(it['id'], 0, svc.IMPLICIT) for it in pcs], 64))]
+                return [fd.incoming_pdu(fd.ac_spec([(it['id'], results[k % len(results)], svc.IMPLICIT)
+                                                    for k, it in enumerate(pcs)], 64))]
             if t == 5:
                 return [fd.incoming_pdu({'t': 6, 'r1': 0, 'r2': 0})]
             return []
@@ -192,12 +193,15 @@ def requester_peer_event(position, kind, event):
         raise Violation('%s:peer-event:not-ended' % PROP, 'provider not stopped', case)
 
 
-def requester_exit(mode, where):
-    """mode: 'normal' | 'Boom' | 'KeyError' | 'NetDICOMError' | 'generator'; where: 'first' | 'between'."""
+def requester_exit(mode, where, results=(0,)):
+    """mode: 'normal' | 'Boom' | 'KeyError' | 'NetDICOMError' | 'generator'; where: 'first' | 'between';
+    results: result codes the peer answers the proposed contexts with (cycled) - an association whose contexts
+    were all refused is still an association and is left the same way."""
     from pynetdicom2 import exceptions
-    case = {'kind': 'requester-exit', 'mode': mode, 'where': where}
+    case = {'kind': 'requester-exit', 'mode': mode, 'where': where, 'results': list(results)}
     ae = make_client()
-    fac = fd.Factory([lambda d: setattr(d, 'responder', peer(['ok', 'half-find', 'ok'] if mode == 'generator' else []))])
+    fac = fd.Factory([lambda d: setattr(d, 'responder', peer(['ok', 'half-find', 'ok'] if mode == 'generator' else [],
+                                                             tuple(results)))])
     thrown = {'Boom': Boom('x'), 'KeyError': KeyError('k'), 'NetDICOMError': exceptions.NetDICOMError('n'),
               'generator': Boom('in generator')}.get(mode)
     raised = None
@@ -499,6 +503,12 @@ def run(ctx):
             ctx.case(('exit', mode, where), mode != 'normal' or where == 'between', labels=['exit=' + mode],
                      sample={'exit': mode, 'where': where})
             ctx.check(requester_exit, mode, where)
+        if mode != 'generator':
+            # the peer accepted the association but none / only the first (verification) of its contexts
+            for results in ((3,), (1, 2, 3, 4), (0, 3, 4)):
+                ctx.case(('exit', mode, results), True, labels=['exit=' + mode, 'contexts-refused'],
+                         sample={'exit': mode, 'context results': results})
+                ctx.check(requester_exit, mode, 'between' if results[0] == 0 else 'first', results)
     for ev in events:
         for after in (0, 1, 3):
             ctx.case(('acc-ev', ev, after), after > 0 or ev[1:] not in ((), (0, 0)), labels=['acceptor-peer-' + ev[0]])
@@ -534,7 +544,7 @@ def replay(case):
     elif k == 'requester-peer-event':
         requester_peer_event(case['position'], case['exchange'], tuple(case['event']))
     elif k == 'requester-exit':
-        requester_exit(case['mode'], case['where'])
+        requester_exit(case['mode'], case['where'], tuple(case.get('results', (0,))))
     elif k == 'loopback':
         from .. import loopback as lb
         try:
